@@ -6,6 +6,7 @@ import (
 	"fmt"
 	"os"
 	"path/filepath"
+	"sort"
 	"sync"
 
 	"github.com/thomasjungblut/go-sstables/recordio"
@@ -88,6 +89,32 @@ func init() {
 	})
 }
 
+// foldCmp orders byte keys ignoring ASCII case: keys that differ only in case are EQUAL
+type foldCmp struct{}
+
+func (foldCmp) Compare(a, b []byte) int { return bytes.Compare(asciiLower(a), asciiLower(b)) }
+
+// asciiLower / asciiUpper fold the 26 ASCII letters only (every other byte, valid UTF-8 or not, is left alone)
+func asciiLower(b []byte) []byte {
+	out := append([]byte{}, b...)
+	for i, x := range out {
+		if x >= 'A' && x <= 'Z' {
+			out[i] = x + 32
+		}
+	}
+	return out
+}
+
+func asciiUpper(b []byte) []byte {
+	out := append([]byte{}, b...)
+	for i, x := range out {
+		if x >= 'a' && x <= 'z' {
+			out[i] = x - 32
+		}
+	}
+	return out
+}
+
 func runC15(c *fw.Case) {
 	r := c.R
 	plan := &faultPlan{}
@@ -101,9 +128,17 @@ func runC15(c *fw.Case) {
 	// the comparator contract is <0 / 0 / >0: one program in three orders its keys with a comparator that yields the same
 	// order as bytes.Compare but returns differences (memcmp style), not -1/0/+1
 	var keyCmp skiplist.Comparator[[]byte] = skiplist.BytesComparator{}
-	if r.Intn(3) == 0 {
+	fold := false
+	switch r.Intn(6) {
+	case 0, 1:
 		keyCmp = memcmpCmp{}
 		c.Obs("programs_with_a_difference_valued_comparator", 1)
+	case 2:
+		// a comparator whose equality is COARSER than byte equality (ASCII case is ignored): "the same key" is what the
+		// comparator says, so "Apple" after "apple" is a duplicate
+		keyCmp = foldCmp{}
+		fold = true
+		c.Obs("programs_with_a_case_folding_comparator", 1)
 	}
 	opts := []sstables.WriterOption{sstables.WriteBasePath(c.Dir), sstables.WithKeyComparator(keyCmp),
 		sstables.DataCompressionType(dataComp), sstables.IndexCompressionType(idxComp)}
@@ -124,6 +159,20 @@ func runC15(c *fw.Case) {
 	universe := gen.AscendingKeys(r, 4+r.Intn(30), gen.Pick(r, 0, 1, 3, 4))
 	if r.Intn(3) == 0 {
 		universe[0] = []byte{}
+	}
+	if fold {
+		// distinct and ascending under the folding comparator; letters are added so that case variants exist
+		seen := map[string]bool{}
+		var u [][]byte
+		for i, k := range universe {
+			k = asciiLower(append(append([]byte{}, k...), byte('a'+i%26)))
+			if !seen[string(k)] {
+				seen[string(k)] = true
+				u = append(u, k)
+			}
+		}
+		sort.Slice(u, func(i, j int) bool { return bytes.Compare(u[i], u[j]) < 0 })
+		universe = u
 	}
 	var accepted []kv
 	var trace []string
@@ -178,8 +227,11 @@ func runC15(c *fw.Case) {
 		if r.Float64() < faultRate {
 			fault = gen.Pick(r, "data", "index")
 		}
+		if fold && !retrying && r.Intn(3) == 0 {
+			k = asciiUpper(k) // a different spelling of the same key
+		}
 		c.HashAdd(k, v, v == nil, fault)
-		wantOrder := len(accepted) > 0 && bytes.Compare(k, accepted[len(accepted)-1].k) <= 0
+		wantOrder := len(accepted) > 0 && keyCmp.Compare(k, accepted[len(accepted)-1].k) <= 0
 		plan.mu.Lock()
 		plan.failData, plan.failIdx = fault == "data", fault == "index"
 		plan.mu.Unlock()
@@ -251,7 +303,12 @@ func runC15(c *fw.Case) {
 		return
 	}
 	// read back
-	rd, err := sstables.NewSSTableReader(sstables.ReadBasePath(c.Dir), sstables.ReadWithKeyComparator(keyCmp))
+	ropts := []sstables.ReadOption{sstables.ReadBasePath(c.Dir), sstables.ReadWithKeyComparator(keyCmp)}
+	if fold {
+		// (an order that differs from the byte order needs the index loader that takes the comparator)
+		ropts = append(ropts, sstables.ReadIndexLoader(&sstables.SkipListIndexLoader{KeyComparator: keyCmp, ReadBufferSize: 4096}))
+	}
+	rd, err := sstables.NewSSTableReader(ropts...)
 	if err != nil {
 		c.Violate("sstable-writer/table-unreadable", "%s: %v\n%v", cfg, err, trace)
 		return
